@@ -155,7 +155,7 @@ def rule_det2(ctx: Ctx) -> RuleResult:
 
 
 def rule_det3(ctx: Ctx) -> RuleResult:
-    rr = RuleResult("DET-3", "removing a type purges it from the registry and from the replace relation", floor=4)
+    rr = RuleResult("DET-3", "removing a type purges it from the registry and from the replace relation", floor=3)
     prog = ctx.prog
     c = prog.cls(*SSR)
     rm = prog.lookup_method(c, "remove")
@@ -178,6 +178,17 @@ def rule_det3(ctx: Ctx) -> RuleResult:
     ok = False
     why = "no loop over the replace relation deleting pairs"
     for lp in walk_no_nested(f.node):
+        if isinstance(lp, ast.For) and isinstance(lp.target, ast.Name):
+            # `for pair in list(self.replaces): if cls in pair: self.replaces.remove(pair)` covers both positions at once
+            inner, snap = strip_snapshot(lp.iter)
+            pv = lp.target.id
+            if len(lp.body) == 1 and isinstance(lp.body[0], ast.If) and norm(lp.body[0].test) == f"{p} in {pv}":
+                dels = [x for x in ast.walk(lp.body[0]) if isinstance(x, ast.Call) and isinstance(x.func, ast.Attribute)
+                        and x.func.attr in ("remove", "discard") and norm(x.func.value) == norm(inner)
+                        and x.args and norm(x.args[0]) == pv]
+                if dels:
+                    ok = snap
+                    why = "" if snap else "iterates the live set while deleting from it"
         if isinstance(lp, ast.For) and isinstance(lp.target, ast.Tuple) and len(lp.target.elts) == 2:
             inner, snap = strip_snapshot(lp.iter)
             rel = norm(inner)
@@ -287,7 +298,7 @@ def rule_det3(ctx: Ctx) -> RuleResult:
 
 
 def rule_det4(ctx: Ctx) -> RuleResult:
-    rr = RuleResult("DET-4", "every string pseudo-type implements the whole interface", floor=6)
+    rr = RuleResult("DET-4", "every string pseudo-type implements the whole interface", floor=5)
     prog = ctx.prog
     base = prog.cls(*SS)
     handler_types: Set[str] = set()
